@@ -490,7 +490,9 @@ def run(ck):
     #      far below 1e-5 of the absolute time (calendar years with daily output, epoch seconds): times must not be merged
     fixed = [(dict(spec_catalogue("Spiral"), t0=0.0), [1.0, 2.5, 100.0]),
              (dict(spec_catalogue("SIR_norm"), t0=5000.0), [5000.02, 5000.04, 5000.06, 5000.08]),
-             (dict(spec_catalogue("SIR_norm"), t0=738000.0), [738000.5, 738001.0, 738001.5])]
+             (dict(spec_catalogue("SIR_norm"), t0=738000.0), [738000.5, 738001.0, 738001.5]),
+             # (c) solving backwards from the initial time: rows in the requested (decreasing) order
+             (dict(spec_catalogue("SIR_norm"), t0=1.0), [0.75, 0.5, 0.0, -1.0])]
     for spec, grid in fixed:
         stats["grids"]["corpus"] = stats["grids"].get("corpus", 0) + 1
         # the long gap is run on the methods whose step budget (nsteps / mxstep = 10000) covers it; vode/ivode (BDF/Adams at
